@@ -39,11 +39,16 @@ def run(chk):
     drv = V.build_driver("sysdrv", chk.bindir)
     inv = ["MutualExclusion", "ServedInArrivalOrder"]
     props = ["GrantOnlyToWaiting"]
-    kw = dict(use_next="HNext", use_init="HInit", reset_extra="/\\ arrivals' = <<>> /\\ served' = <<>>")
+    # P-level mode: the real-code states are judged by the properties; conformance of each step to
+    # locksvc.tla's Next is C02's business (here a mismatch is drift)
+    kw = dict(conform=False, hist_step="HStep", use_init="HInit", reset_extra="/\\ arrivals' = <<>> /\\ served' = <<>>")
 
     def report(rej, runs_meta, what):
         for r in rej:
             meta = runs_meta[r["run_index"]]
+            if r["kind"] == "stuck":
+                chk.drift.append({"what": what, "state_index": r["state_index"], "text": r["text"]})
+                continue
             name = "step-not-in-spec" if r["kind"] == "stuck" else next((i for i in inv + props if i in r["text"]), "property")
             chk.violation("C15:%s:%s" % (name, what),
                           "generated lock service (%s): %s at state %d of the execution" % (what, r["text"], r["state_index"]),
@@ -73,11 +78,9 @@ def run(chk):
         ns, ne = T.dot_counts(dot)
         gs, ge = g["summary"]["states"], g["summary"]["edges"]
         chk.notes["graph_n%d" % n] = {"tlc_states": ns, "tlc_edges": ne, "go_states": gs, "go_edges": ge, "walks": len(walks)}
-        if not res["rejected"] and (ns, ne) != (gs, ge):
-            # every Go edge is a spec edge (validated above); a different count means the Go misses spec behaviour
-            chk.violation("C15:graph-mismatch:n=%d" % n,
-                          "the generated code reaches %d states / %d transitions, the specification %d / %d (NumClients=%d)" % (gs, ge, ns, ne, n),
-                          {"n": n, "go": [gs, ge], "tlc": [ns, ne]})
+        if (ns, ne) != (gs, ge):
+            # conformance is C02's property; here a different graph only means the coverage claim "all reachable states" is about the Go's own graph
+            chk.drift.append({"what": "graph n=%d" % n, "go": [gs, ge], "tlc": [ns, ne]})
         if walks:
             chk.sample({"kind": "graph walk", "n": n, "states": walks[-1][:3]})
 
